@@ -168,7 +168,7 @@ def handleImpl (inp out : List String) : String :=
     let fb0 := RI.RGraph.new 1 b
     let fa := fa0.selfNode ar
     let fb := fb0.selfNode ar
-    let (ma, mb, _, _) := RI.nodedGraphs ar a b
+    let (ma, mb, _, _) := RI.mutualGraphs ar fa fb
     let tie := RI.envelopesMeet a b &&
       !(selfComplete ar fa0 fa.edges && selfComplete ar fb0 fb.edges && mutualComplete ar fa fb ma.edges mb.edges)
     if tie then skip "near-tie:intersection-key-collision" else
